@@ -713,10 +713,10 @@ func init() {
 	oracle := "membership oracle: exact crossing parity from a construction-known point (loops, polygons), chord^2 / lat-lng comparison with a 1e-14 rad margin (caps, rectangles), own uv projection (cells, cell unions), vertex identity and 4-eps edge distance (polylines), identity (points); the library's ContainsPoint must agree wherever the oracle is certain"
 	ev.Define("covering_contains_region", ev.Options{
 		Rule:  regions + "; " + cfgs + "; " + oracle + ". ~20 generated probes (inside, on and next to the boundary at 0..1e-8 rad, outside) plus the region's feature points (centre, boundary points, corners, vertices, edge midpoints): every probe certainly in the region must lie in Covering and CellUnion (leaf id in a cell's range, or in a cell's closed uv rectangle grown by 4 eps); every probe within the margin of the boundary must be within 1e-13 (uv) of them. Non-trivial = covering has >= 2 cells, at least one probe in/near the region, and the covering meets >= 2 faces or a probe next to the boundary is in the region.",
-		Quick: 9000, Thorough: 320000}, genCovCase, checkCoveringContains)
+		Quick: 9000, Thorough: 250000}, genCovCase, checkCoveringContains)
 	ev.Define("covering_level_rules", ev.Options{
 		Rule:  regions + "; " + cfgs + ". Covering: valid ids, sorted, disjoint, MinLevel <= level <= MaxLevel, (level-MinLevel) mod LevelMod == 0; more than MaxCells cells only if no two share a MinLevel ancestor; CellUnion: normalized, no level > MaxLevel, same leaf set as Covering. Non-trivial = >= 2 cells and a non-default level constraint.",
-		Quick: 12000, Thorough: 400000}, genCovCase, checkCoveringLevels)
+		Quick: 12000, Thorough: 300000}, genCovCase, checkCoveringLevels)
 	ev.Define("fast_covering_contains_region", ev.Options{
 		Rule:  regions + "; " + cfgs + "; " + oracle + ". Same probe rule as covering_contains_region for FastCovering and for the raw CellUnionBound. Non-trivial as there.",
 		Quick: 12000, Thorough: 400000}, genFastCase, checkFastContains)
@@ -731,5 +731,5 @@ func init() {
 		Quick: 8000, Thorough: 250000}, genFloodCase, checkFloodFill)
 	ev.Define("region_predicates_one_sided", ev.Options{
 		Rule:  regions + "; target cell: ancestor at a level around the region's scale (-4..+20, or uniform 0..30) of a probe/feature point, or an edge/vertex neighbour of it; for cell regions also members, their ancestors and descendants. Cell points: 5x5 uv grid incl. the boundary, 8 random interior points, Vertex(k), centre, region features and probes that fall in the cell, their uv clamp onto the cell, and the region's nearest points to the cell centre/vertices/edge midpoints. ContainsCell => no cell point outside the region; !IntersectsCell => no cell point in the region (cell regions: interior points only; polylines: also points inside the cell by 1e-13 that are within 4 eps of an edge); ContainsCell => IntersectsCell. Non-trivial = the cell meets the boundary (intersects but not contained, or mixed in/out points, or a point within the margin).",
-		Quick: 40000, Thorough: 1500000}, genPredCase, checkPredicates)
+		Quick: 40000, Thorough: 1200000}, genPredCase, checkPredicates)
 }
